@@ -158,7 +158,7 @@ fn judge_format(rec: &mut Rec, n: i64, hashed: bool, also_dt: bool) {
 
 /// The property's four formatted fields (e, D, w, q) in random company: a Date or a DateTime (any time of day — the
 /// first and the last hour of the local day in particular — under any offset) formatted with a pattern of the judged
-/// symbol plus 0–6 other symbols of the type; every e / D / w / q token of the output is compared with the documented
+/// symbol plus 0–6 other symbols of the type; every e / D / w / q token of the output (the judged symbol sometimes twice; fields separated by a plain character, a doubled apostrophe or a quoted character) is compared with the documented
 /// rendering of the calendar model's value for the *local* day.
 fn judge_company(rec: &mut Rec, rng: &mut Rng, n: i64, tod: u64, off: i32, on_dt: bool) {
     use super::diff::{sane_date, SKIP_START};
@@ -169,8 +169,25 @@ fn judge_company(rec: &mut Rec, rng: &mut Rng, n: i64, tod: u64, off: i32, on_dt
     rec.eval();
     rec.api(if on_dt { "DateTime::format (e/D/w/q in random company)" } else { "Date::format (e/D/w/q in random company)" });
     let kind = if on_dt { Kind::DateTime } else { Kind::Date };
-    let toks = super::fmtctx::company(rng, kind, &['e', 'D', 'w', 'q'], true);
-    let p = super::fmtctx::join(&toks);
+    let mut toks = super::fmtctx::company(rng, kind, &['e', 'D', 'w', 'q'], true);
+    // sometimes the judged symbol occurs twice (the same field on both sides of a separator)
+    if rng.chance(1, 3) {
+        if let Some(t) = toks.iter().find(|t| "eDwq".contains(t.0)).cloned() {
+            let at = rng.below(toks.len() as u64 + 1) as usize;
+            toks.insert(at, (t.0, if rng.chance(1, 2) { t.1 } else { 1 + rng.below(4) as usize }));
+        }
+    }
+    // the separator between fields: a plain character, a doubled apostrophe (prints one), a quoted character
+    let (sep_pat, sep_out): (&str, char) = *rng.pick(&[("|", '|'), ("|", '|'), ("''", '\''), ("'|'", '|'), ("\u{a0}", '\u{a0}')]);
+    let mut p = String::new();
+    for (k, (c, w)) in toks.iter().enumerate() {
+        if k > 0 {
+            p.push_str(sep_pat);
+        }
+        for _ in 0..*w {
+            p.push(*c);
+        }
+    }
     // local day of the value
     let i = n as i128 * D + tod as i128;
     let local = i + off as i128 * NS;
@@ -199,7 +216,7 @@ fn judge_company(rec: &mut Rec, rng: &mut Rng, n: i64, tod: u64, off: i32, on_dt
     match got {
         Err(pn) => rec.violation(format!("C02|format-in-company|{}::format|panic|{},{}", if on_dt { "DateTime" } else { "Date" }, pn.class, pn.site()), || wit(pn.to_json())),
         Ok(s) => {
-            let parts: Vec<&str> = s.split(super::fmtctx::SEP).collect();
+            let parts: Vec<&str> = s.split(sep_out).collect();
             if parts.len() != toks.len() {
                 // some other field printed the separator or nothing came out: not this property's business to say which
                 rec.bin("company/output-does-not-split(other-property)");
